@@ -1,11 +1,11 @@
-import Cutadapt.Proofs.MatchSoundRaw
+import Cutadapt.Proofs.MatchSoundMin
 /-! # C01 — every reported adapter match is a genuine, in-tolerance occurrence
 
 Statements are in the documented vocabulary of `Spec/Occurrence.lean` and `Spec/Edit.lean`; the model is
 `Adapters.matchTo` (the eight `match_to` methods without the k-mer prefilter). What is proved here is the
 soundness half: bounds, placement, overlap, an alignment of cost ≤ `errors` under the documented wildcard rules,
-tolerance on the non-N aligned adapter bases, Hamming distance when indels are off. Minimality of `errors`
-(`errors_minimal_statement`) needs exactness of the banded DP and is stated only. -/
+tolerance on the non-N aligned adapter bases, Hamming distance when indels are off. Minimality of `errors` (`errors_minimal`,
+`matchTo_errors_is_distance`) rests on exactness of the banded DP (`Proofs/DpExact*.lean`). -/
 namespace Cutadapt.C01
 open Cutadapt Cutadapt.Align Cutadapt.Spec Cutadapt.Generated Cutadapt.Adapters Cutadapt.MatchSound
 
@@ -169,12 +169,85 @@ theorem noindel_is_hamming (a : Adapter) (read : Bytes) (mt : SingleMatch) (h : 
   rw [seg_length' _ _ _ b2, seg_length' _ _ _ b4] at h1
   exact ⟨h1, by rw [h2]; exact hc⟩
 
-/-- `errors` is not only an upper bound: no alignment of the two reported intervals is cheaper.
-    (Needs exactness of the banded DP; not proved here.) -/
-def errors_minimal_statement : Prop :=
-  ∀ (a : Adapter) (read : Bytes) (mt : SingleMatch), AdapterWF a → matchTo a read = some mt →
+/-! ### minimality of `errors` -/
+
+theorem alignment_min (a : Adapter) (read : Bytes) (h : AdapterWF a)
+    (hlen : a.indels = false → isAnchored a.ty = true → a.seq.length < indelCostOff)
+    {as ae rs re : Nat} {sc : Int} {e : Nat} (hm : alignment a read = some (as, ae, rs, re, sc, e)) :
+    RawMin a.adapterWildcards a.readWildcards (indelCost a) a.seq read as ae rs re e := by
+  obtain ⟨hup, hmono, hforce, hanch⟩ := h
+  obtain ⟨ty, seq, thr, mo, rw, aw, indels, force, name⟩ := a
+  simp only at hup hmono hforce hanch hlen ⊢
+  subst hforce
+  cases ty
+  case front => exact locate_rawMin _ _ _ read rfl hup hmono hm
+  case back => exact locate_rawMin _ _ _ read rfl hup hmono hm
+  case anywhere => exact (locate_rawMin _ _ _ _ rfl hup hmono hm).upperRead
+  case nonInternalFront => exact locate_rawMin _ _ _ read rfl hup hmono hm
+  case nonInternalBack => exact locate_rawMin _ _ _ read rfl hup hmono hm
+  case rightmostFront =>
+    simp only [alignment] at hm
+    split at hm
+    · cases hm
+    · next rs0 re0 qs qe sc0 e0 hloc =>
+      simp only [Option.some.injEq, Prod.mk.injEq] at hm
+      obtain ⟨h1, h2, h3, h4, h5, h6⟩ := hm
+      subst h1 h2 h3 h4 h6
+      obtain ⟨_, hr⟩ := locate_raw _ _ seq.reverse read.reverse (by simp) (by simpa using hup) hmono hloc
+      have hb := hr.bounds
+      rw [List.length_reverse, List.length_reverse] at hb
+      exact (locate_rawMin _ _ seq.reverse read.reverse (by simp) (by simpa using hup) hmono hloc).reverse hb
+  case «prefix» =>
+    cases indels
+    · obtain ⟨h1, h2, h3, h4, h5, h6, _⟩ := comparePrefix_raw _ 0 seq read hup (hanch rfl) hm
+      subst h1 h2 h3 h4 h6
+      exact hamming_rawMin aw rw seq read (hlen rfl rfl)
+    · exact locate_rawMin _ _ _ read rfl hup hmono hm
+  case suffix =>
+    cases indels
+    · simp only [alignment, Bool.not_false, if_true, compareSuffix] at hm
+      split at hm
+      · cases hm
+      · next x0 len x1 x2 sc0 e0 hcmp =>
+        simp only [Option.some.injEq, Prod.mk.injEq] at hm
+        obtain ⟨h1, h2, h3, h4, h5, h6⟩ := hm
+        subst h1 h2 h3 h4 h6
+        obtain ⟨g1, g2, g3, g4, g5, g6, _⟩ := comparePrefix_raw _ 0 seq.reverse read.reverse
+          (by simpa using hup) (by rw [List.length_reverse]; exact hanch rfl) hcmp
+        subst g2 g6
+        rw [List.length_reverse, List.length_reverse] at g5
+        have hmin := (hamming_rawMin aw rw seq.reverse read.reverse
+          (by rw [List.length_reverse]; exact hlen rfl rfl)).reverse
+          (by simp only [List.length_reverse]; omega)
+        simp only [List.length_reverse, Nat.sub_self, Nat.sub_zero] at hmin ⊢
+        exact hmin
+    · exact locate_rawMin _ _ _ read rfl hup hmono hm
+
+/-- **C01, minimality half.** No alignment of the two reported intervals is cheaper than `errors`.
+    (For the indel-free comparers of anchored adapters this needs an adapter shorter than the pseudo-infinite indel
+    cost 100000: beyond twice that length a deletion plus an insertion can beat the Hamming distance.) -/
+theorem errors_minimal (a : Adapter) (read : Bytes) (mt : SingleMatch) (h : AdapterWF a)
+    (hlen : a.indels = false → isAnchored a.ty = true → a.seq.length < indelCostOff)
+    (hm : matchTo a read = some mt) :
     ∀ s, lhs s = seg a.seq mt.astart mt.astop → rhs s = seg read mt.rstart mt.rstop →
-      mt.errors ≤ cost (docMatch a.adapterWildcards a.readWildcards) (indelCost a) s
+      mt.errors ≤ cost (docMatch a.adapterWildcards a.readWildcards) (indelCost a) s := by
+  unfold matchTo at hm
+  split at hm
+  · cases hm
+  · next as ae rs re sc e hal =>
+    simp only [Option.some.injEq] at hm
+    subst hm
+    exact alignment_min a read h hlen hal
+
+/-- `errors` is the weighted edit distance between the two reported intervals under the documented wildcard rules -/
+theorem matchTo_errors_is_distance (a : Adapter) (read : Bytes) (mt : SingleMatch) (h : AdapterWF a)
+    (hlen : a.indels = false → isAnchored a.ty = true → a.seq.length < indelCostOff)
+    (hm : matchTo a read = some mt) :
+    IsDist (docMatch a.adapterWildcards a.readWildcards) (indelCost a)
+      (seg a.seq mt.astart mt.astop) (seg read mt.rstart mt.rstop) mt.errors := by
+  have hmin := errors_minimal a read mt h hlen hm
+  obtain ⟨s, hl, hr, hc⟩ := (matchTo_sound a read h mt hm).script
+  exact ⟨⟨s, hl, hr, Nat.le_antisymm hc (hmin s hl hr)⟩, hmin⟩
 
 /-! ### non-vacuity: concrete matches (A=65 C=67 G=71 T=84 N=78; lower case +32), tolerance `⌊L/5⌋` -/
 
